@@ -9,6 +9,12 @@ def commits():
     return [l.split()[0] for l in out.splitlines() if l.split(" ", 1)[1].startswith("verif:")]
 
 CHECKS = {
+ "C01": ("model-based testing: proptest-generated call histories with state-aware argument resolution, lock-step against a reference tree filesystem; greedy op-deletion shrinking",
+         "Random histories (up to 40/80-200 calls; every trait method, builders, handles; 8 path spellings) are executed on Memfs and on a reference model written from the trait docs; every result and the full dump-derived tree are compared after every step, failed single-target calls must leave the raw state untouched.",
+         "reference model harness/src/fsmodel.rs (rules + admitted sets: DESIGN.md appendix A); hook H2 dump; paths through intermediate links excluded", "4 C01"),
+ "C03": ("stateful property-based testing: unrestricted generated histories with an 8-clause structural invariant over the raw Memfs dump after every step",
+         "Histories with wild arguments (through links, root, empty, long '..' chains, huge names, nested src/dst, all builder options, failing calls) and after every step the raw indexes must form a well-formed tree and agree with the public API view.",
+         "hook H2 dump is faithful; invariant list in harness/src/fsapply.rs::integrity", "4 C03"),
  "C14": ("bounded-exhaustive enumeration + seeded random strings (proptest) vs an independent port of Go path.Clean",
          "Every string over {/ . a b} up to length 9/11 is compared with a reference port of Go's path.Clean, plus idempotence/absoluteness/non-emptiness; random adversarial strings beyond. Exhaustive inside the bound, sampled outside; no proof.",
          "ref_clean (harness/src/refpath.rs, unit-tested against Go's cleantests table), rustc/std", "4 C14"),
